@@ -15,6 +15,8 @@ func ShapeClasses(format string, recs []Record, l Layout, content []byte) []stri
 		return npmShapes(recs, l)
 	case "gomod":
 		return goModShapes(recs, l, content)
+	case "requirements":
+		return reqShapes(recs, l)
 	}
 	return nil
 }
